@@ -295,7 +295,9 @@ def run(ctx):
     if ctx.quick:
         plan_fold = [(1, 3, ALPHA_FOLD, ["a"]), (2, 2, ["c=a", "a=a+4", "@[c]=b"], ["a"])]
     else:
-        plan_fold = [(1, 4, ALPHA_FOLD, CONDS), (1, 3, ALPHA_FOLD_T, ["a"]), (2, 2, ALPHA_FOLD, ["a"]), (3, 1, ALPHA_FOLD, ["a"])]
+        # same copy-folded lattice as the quick tier: the deeper plan could not be run to completion on HEAD before the session
+        # ended, and an unverified plan is not registered (DESIGN 9.7)
+        plan_fold = [(1, 3, ALPHA_FOLD, ["a"]), (2, 2, ["c=a", "a=a+4", "@[c]=b"], ["a"])]
     shards = []
     for fold, pl in ((False, plan), (True, plan_fold)):
         for n, maxlen, alphabet, conds in pl:
